@@ -186,6 +186,7 @@ def run(tier, seed):
         failing += corpus(ck, tmp)
         failing += roundtrip_stream(ck, tmp, 110 if not ck.deep else 1500)
         failing += cli_stream(ck, tmp, 8 if not ck.deep else 60)
+        failing += file_form_streams(ck, tmp)
         ck.cov["rule"] = ("envelopes = implementation create() of generated descriptions (authentication blocks incl. CWT payloads, "
                           "severed members, integrated payloads, inline dependencies), plus each envelope severed and with one payload "
                           "removed; each is parsed and re-created through the library (and a sample through the CLI: yaml/json x "
@@ -402,11 +403,24 @@ def cli_stream(ck, tmp, n):
     return fails
 
 
+
+def file_form_streams(ck, tmp):
+    """what parse writes (JSON / YAML) is read back by create's loaders as the same description — for descriptions whose texts, URIs
+    and payload names contain line separators (NEL, LS, PS), BOM, blanks at the ends, control and YAML-significant characters"""
+    import glue
+    descs = glue.tricky_descriptions()
+    return glue.writers_stream(ck, tmp, descs) + glue.loaders_stream(ck, tmp, descs)
+
 def replay(path):
     rec = json.load(open(path))
     inp = rec["input"]
     if inp is None:
         return run("quick", rec.get("seed", 0))
+    if "op" in inp:
+        import glue
+        why = glue.replay(inp)
+        print("REPRODUCED: " + why if why else "not reproduced on the current tree")
+        return 1 if why else 0
     if "envelope" in inp:
         e = bytes.fromhex(inp["envelope"])
         r = interp.run_impl(rt_library, e)
